@@ -13,7 +13,7 @@ import traceback
 from exo.core.LoopIR import LoopIR, T
 
 from . import irutil, equiv
-from .common import shash, jhash
+from .common import shash, jhash, CaseTimeout
 from .gen_prog import gen_program, load_program, Knobs
 from .gen_sched import (
     Session,
@@ -109,42 +109,70 @@ class Monitor:
         pass
 
 
+def transitions(step, old, result):
+    """primitive applications performed by a step: list of
+    (op, p_in, p_out, call record | None, index into result.calls | None, unsafe)"""
+    out = []
+    for k, c in enumerate(result.calls or []):
+        if c.accepted and c.proc_in is not None and hasattr(c.proc_in, "_loopir_proc"):
+            out.append((c.op, c.proc_in, c.proc_out, c, k, c.is_unsafe()))
+    if not out and result.status == "accepted":
+        out.append((step["op"], old, result.proc, None, None, is_unsafe_step(step)))
+    return out
+
+
 class EquivMonitor(Monitor):
-    """C01: accepted, not-unsafe rewrite must preserve final state on valid inputs"""
+    """C01: accepted, not-unsafe rewrite must preserve final state on valid inputs.
+
+    Judged per *primitive application* (the hooked client boundary), so that a
+    stdlib composition is attributed to the primitive that went wrong, and end to
+    end against the root of the chain."""
 
     name = "equiv"
     prop = "C01"
 
-    def __init__(self, ctx, ninputs=6, end_to_end=True, kinds=("diff",)):
+    def __init__(self, ctx, ninputs=6, end_to_end=True, kinds=("diff",), forced_spec=None):
         super().__init__(ctx)
         self.ninputs = ninputs
         self.end_to_end = end_to_end
         self.kinds = kinds
         self.root_idx = 0
         self.chain_ok = True
+        self.forced_spec = forced_spec
+        self.last_step = False
 
     def on_program(self, sess):
         self.root_idx = 0
         self.chain_ok = True
 
-    def after_step(self, sess, step, old, result):
+    def emit(self, sess, steps, op, via, kind, p_in, p_out, call, inner, spec, witness, e2e=False):
         ctx = self.ctx
-        if result.status != "accepted":
-            return
-        op = step["op"]
-        if is_unsafe_step(step) or op in SIG_CHANGING:
-            # restart the chain with a new root
-            self.root_idx = len(sess.procs) - 1
-            self.chain_ok = True
-            ctx.stat("equiv.exempt")
-            return
-        old_ir = old._loopir_proc
-        new_ir = result.proc._loopir_proc
+        old_ir, new_ir = p_in._loopir_proc, p_out._loopir_proc
+        sig = {"prop": "C01", "monitor": "equiv", "kind": kind, "op": op, "features": ir_features(old_ir)}
+        if via and via != op:
+            sig["via"] = via
+        if e2e:
+            sig["found_by"] = "e2e"
+        diag = diagnose(op, old_ir, new_ir, call)
+        if diag:
+            sig["diag"] = diag
+        case = mk_case(sess, steps, "equiv", spec, {"witness": witness, "inner": inner, "inner_op": op, "before": sstr(p_in), "after": sstr(p_out)})
+        ctx.violation(sig, case)
+        ctx.stat(f"viol.equiv.{op}")
+
+    def judge_transition(self, sess, steps, step, tr, specs=None):
+        """returns True when a violation was emitted"""
+        ctx = self.ctx
+        op, p_in, p_out, call, inner, unsafe = tr
+        old_ir, new_ir = p_in._loopir_proc, p_out._loopir_proc
         if old_ir is new_ir:
             ctx.stat("equiv.identity")
-            return
+            return False
+        if unsafe:
+            ctx.stat("equiv.exempt")
+            return False
         connected, mf = equiv.reported_mod_fields(old_ir, new_ir)
-        j = equiv.judge(old_ir, new_ir, ctx.rng, self.ninputs, mf)
+        j = equiv.judge(old_ir, new_ir, ctx.rng, self.ninputs, mf, specs=specs)
         ctx.stat("evaluations")
         ctx.stat(f"op.judged.{op}")
         ctx.stat("inputs.judged", j["judged"])
@@ -153,46 +181,49 @@ class EquivMonitor(Monitor):
             ctx.stat("equiv.vacuous")
             for k, v in (j.get("reasons") or {}).items():
                 ctx.stat("vacuous." + k, v)
-            return
-        h = jhash([irutil.fingerprint(old_ir, alpha=True), step_brief(step), irutil.fingerprint(new_ir, alpha=True)])
+            return False
+        h = jhash([irutil.fingerprint(old_ir, alpha=True), op, irutil.fingerprint(new_ir, alpha=True)])
         ctx.distinct(h, nontrivial=True)
         if ctx._nsamples < 2:
-            ctx.sample(
-                {
-                    "op": op,
-                    "kw": step.get("kw"),
-                    "before": sstr(old, 1500),
-                    "after": sstr(result.proc, 1500),
-                    "inputs_judged": j["judged"],
-                    "verdict": j["verdict"],
-                },
-                limit=2,
-            )
+            ctx.sample({"op": op, "via": step["op"], "before": sstr(p_in, 1500), "after": sstr(p_out, 1500), "inputs_judged": j["judged"], "verdict": j["verdict"]}, limit=2)
         if j["verdict"] in self.kinds:
+            self.emit(sess, steps, op, step["op"], j["verdict"], p_in, p_out, call, inner, j["spec"], j["witness"])
+            return True
+        return False
+
+    def after_step(self, sess, step, old, result):
+        ctx = self.ctx
+        if result.status != "accepted" and not result.calls:
+            return
+        op = step["op"]
+        if op in SIG_CHANGING:
+            self.root_idx = len(sess.procs) - 1
+            self.chain_ok = True
+            ctx.stat("equiv.exempt")
+            return
+        trs = transitions(step, old, result)
+        steps = sess.steps if result.status == "accepted" else sess.steps + [step]
+        bad = False
+        any_unsafe = False
+        for tr in trs:
+            any_unsafe = any_unsafe or tr[5]
+            specs = [self.forced_spec] if (self.forced_spec is not None and self.last_step) else None
+            if self.judge_transition(sess, steps, step, tr, specs=specs):
+                bad = True
+                break
+        if result.status != "accepted":
+            return
+        if any_unsafe:
+            self.root_idx = len(sess.procs) - 1
+            self.chain_ok = True
+            return
+        if bad:
             self.chain_ok = False
-            sig = {
-                "prop": "C01",
-                "monitor": "equiv",
-                "kind": j["verdict"],
-                "op": op,
-                "features": ir_features(old_ir),
-            }
-            diag = diagnose(op, old_ir, new_ir, step, sess)
-            if diag:
-                sig["diag"] = diag
-            case = mk_case(
-                sess,
-                sess.steps,
-                "equiv",
-                j["spec"],
-                {"witness": j["witness"], "before": sstr(old), "after": sstr(result.proc)},
-            )
-            ctx.violation(sig, case)
-            ctx.stat(f"viol.equiv.{op}")
             return
         # end-to-end against the root of the chain (composition)
         if self.end_to_end and self.chain_ok and len(sess.procs) - 1 - self.root_idx >= 2:
             root_ir = sess.procs[self.root_idx]._loopir_proc
+            new_ir = result.proc._loopir_proc
             _, mf2 = equiv.reported_mod_fields(root_ir, new_ir)
             j2 = equiv.judge(root_ir, new_ir, ctx.rng, max(2, self.ninputs // 2), mf2)
             ctx.stat("equiv.e2e")
@@ -200,10 +231,9 @@ class EquivMonitor(Monitor):
                 self.chain_ok = False
                 self.attribute_chain(sess, j2)
 
-
     def attribute_chain(self, sess, j2):
-        """an end-to-end difference is blamed on the first step of the chain whose
-        input and output procedure differ on the witness input"""
+        """an end-to-end difference is blamed on the first primitive application of
+        the chain whose input and output differ on the witness input"""
         ctx = self.ctx
         spec = j2["spec"]
         procs = sess.procs
@@ -213,44 +243,31 @@ class EquivMonitor(Monitor):
                 continue
             _, mf = equiv.reported_mod_fields(a, b)
             c = equiv.compare_on(a, b, spec, mf)
-            if c.status in ("same",):
+            if c.status == "same":
                 continue
             step = sess.steps[i]
-            op = step["op"]
-            if c.status == "diff":
-                kind = "diff"
-            elif c.status == "skip_old":
-                # the chain's own intermediate is not event-free on an input that is
-                # valid for the root: the step that produced it broke safety (C04)
-                kind = "chain_intermediate_unsafe"
-                step = sess.steps[i - 1] if i > self.root_idx else step
-                op = step["op"]
-            else:
-                kind = c.status
-            sig = {
-                "prop": "C01",
-                "monitor": "equiv",
-                "kind": kind if kind in ("diff",) else f"e2e:{kind}",
-                "op": op,
-                "features": ir_features(a),
-                "via": "e2e",
-            }
-            diag = diagnose(op, a, b, step, sess)
-            if diag:
-                sig["diag"] = diag
-            upto = i + 1 if kind == "diff" or c.status != "skip_old" else i
-            case = mk_case(
-                sess,
-                sess.steps[:upto],
-                "equiv",
-                spec,
-                {"witness": c.detail if not hasattr(c.detail, "as_dict") else c.detail.as_dict(), "before": sstr(procs[upto - 1]), "after": sstr(procs[upto])},
-            )
-            if kind == "diff":
-                ctx.violation(sig, case)
-                ctx.stat(f"viol.equiv.{op}")
-            else:
-                ctx.stat(f"e2e.unattributed.{kind}")
+            if c.status != "diff":
+                # an intermediate procedure is not event-free on an input that is valid
+                # for the root: a safety matter (C04), not attributed here
+                ctx.stat(f"e2e.unattributed.{c.status}")
+                return
+            # find the guilty primitive inside the step
+            calls = sess.calls_of[i + 1] if hasattr(sess, "calls_of") and i + 1 < len(sess.calls_of) else []
+            for k, cl in enumerate(calls or []):
+                if not cl.accepted or cl.is_unsafe():
+                    continue
+                x, y = cl.proc_in._loopir_proc, cl.proc_out._loopir_proc
+                if x is y:
+                    continue
+                _, mf3 = equiv.reported_mod_fields(x, y)
+                try:
+                    c3 = equiv.compare_on(x, y, spec, mf3)
+                except Exception:
+                    continue
+                if c3.status == "diff":
+                    self.emit(sess, sess.steps[: i + 1], cl.op, step["op"], "diff", cl.proc_in, cl.proc_out, cl, k, spec, c3.detail, e2e=True)
+                    return
+            self.emit(sess, sess.steps[: i + 1], step["op"], step["op"], "diff", procs[i], procs[i + 1], None, None, spec, c.detail, e2e=True)
             return
         ctx.stat("e2e.unattributed.none")
 
@@ -261,133 +278,134 @@ class SafetyMonitor(Monitor):
     name = "safety"
     prop = "C04"
 
-    def __init__(self, ctx, ninputs=6, compile_every=4):
+    def __init__(self, ctx, ninputs=6, compile_every=4, forced_spec=None):
         super().__init__(ctx)
         self.ninputs = ninputs
         self.compile_every = compile_every
         self.n = 0
+        self.forced_spec = forced_spec
+        self.last_step = False
+
+    def emit(self, sess, steps, step, monitor, kind, tr, spec, extra):
+        ctx = self.ctx
+        op, p_in, p_out, call, inner, unsafe = tr
+        sig = {"prop": "C04", "monitor": monitor, "kind": kind, "op": op, "features": ir_features(p_in._loopir_proc)}
+        if step["op"] != op:
+            sig["via"] = step["op"]
+        diag = diagnose(op, p_in._loopir_proc, p_out._loopir_proc, call)
+        if diag:
+            sig["diag"] = diag
+        d = {"inner": inner, "inner_op": op, "before": sstr(p_in, 3000), "after": sstr(p_out, 3000)}
+        d.update(extra or {})
+        ctx.violation(sig, mk_case(sess, steps, monitor, spec, d))
+        ctx.stat(f"viol.{monitor}.{op}")
 
     def after_step(self, sess, step, old, result):
         ctx = self.ctx
-        if result.status != "accepted":
+        if result.status != "accepted" and not result.calls:
             return
-        op = step["op"]
-        old_ir = old._loopir_proc
-        new_ir = result.proc._loopir_proc
+        steps = sess.steps if result.status == "accepted" else sess.steps + [step]
+        for tr in transitions(step, old, result):
+            if self.judge_transition(sess, steps, step, tr):
+                break
+
+    def judge_transition(self, sess, steps, step, tr):
+        ctx = self.ctx
+        op, p_in, p_out, call, inner, unsafe = tr
+        old_ir, new_ir = p_in._loopir_proc, p_out._loopir_proc
         if old_ir is new_ir:
-            return
+            return False
         self.n += 1
         ctx.stat("evaluations")
         ctx.stat(f"op.judged.{op}")
-        h = jhash([irutil.fingerprint(old_ir, alpha=True), step_brief(step)])
+        h = jhash([irutil.fingerprint(old_ir, alpha=True), op, irutil.fingerprint(new_ir, alpha=True)])
         # (a) scopes / binders / arity -- holds for unsafe-flagged ops too
         probs_old = irutil.validate(old_ir)
         probs = irutil.validate(new_ir)
         ctx.stat("validate.calls")
         if probs and not probs_old:
-            sig = {
-                "prop": "C04",
-                "monitor": "validate",
-                "kind": probs[0]["kind"],
-                "op": op,
-                "features": ir_features(old_ir),
-            }
-            ctx.violation(
-                sig,
-                mk_case(sess, sess.steps, "validate", None, {"problems": probs, "after": sstr(result.proc, 3000)}),
-            )
-            ctx.stat(f"viol.validate.{op}")
+            self.emit(sess, steps, step, "validate", probs[0]["kind"], tr, None, {"problems": probs})
             ctx.distinct(h)
-            return
+            return True
         # sub-procedures created by the op must be well-formed too
-        if result.extra:
-            for x in result.extra:
-                if hasattr(x, "_loopir_proc"):
-                    p2 = irutil.validate(x._loopir_proc)
-                    if p2:
-                        sig = {"prop": "C04", "monitor": "validate-subproc", "kind": p2[0]["kind"], "op": op, "features": ir_features(old_ir)}
-                        ctx.violation(sig, mk_case(sess, sess.steps, "validate", None, {"problems": p2}))
-        if is_unsafe_step(step):
+        extra = (call.extra if call is not None else None) or ()
+        for x in extra:
+            if hasattr(x, "_loopir_proc"):
+                p2 = irutil.validate(x._loopir_proc)
+                if p2:
+                    self.emit(sess, steps, step, "validate-subproc", p2[0]["kind"], tr, None, {"problems": p2, "subproc": sstr(x, 2500)})
+                    return True
+        if unsafe:
             ctx.stat("safety.exempt_unsafe")
             ctx.distinct(h)
-            return
-        # (b)+(c) events / poison in p' on inputs where p is clean
+            return False
         if op in SIG_CHANGING:
-            # different signature: judged by C19's oracle
+            # different signature / narrowed inputs: judged by C19's oracle
             ctx.distinct(h)
-            return
-        j = equiv.judge(old_ir, new_ir, ctx.rng, self.ninputs, equiv.reported_mod_fields(old_ir, new_ir)[1])
+            return False
+        # (b)+(c) events / poison in p' on inputs where p is clean
+        specs = [self.forced_spec] if (self.forced_spec is not None and self.last_step) else None
+        j = equiv.judge(old_ir, new_ir, ctx.rng, self.ninputs, equiv.reported_mod_fields(old_ir, new_ir)[1], specs=specs)
         ctx.stat("inputs.judged", j["judged"])
         if j["verdict"] == "vacuous":
             ctx.stat("safety.vacuous")
         else:
             ctx.distinct(h)
+            if ctx._nsamples < 2:
+                ctx.sample({"op": op, "via": step["op"], "before": sstr(p_in, 1200), "after": sstr(p_out, 1200), "inputs_judged": j["judged"], "validator": "ok", "verdict": j["verdict"]}, limit=2)
         if j["verdict"] in ("new_event", "poison"):
             ev = (j["witness"] or {}).get("event") or {}
             kind = ev.get("kind") or (j["witness"] or {}).get("aborted") or j["verdict"]
-            sig = {
-                "prop": "C04",
-                "monitor": "safety",
-                "kind": "poison" if j["verdict"] == "poison" else f"event:{kind}",
-                "op": op,
-                "features": ir_features(old_ir),
-            }
-            diag = diagnose(op, old_ir, new_ir, step, sess)
-            if diag:
-                sig["diag"] = diag
-            ctx.violation(
-                sig,
-                mk_case(sess, sess.steps, "safety", j["spec"], {"witness": j["witness"], "before": sstr(old), "after": sstr(result.proc)}),
-            )
-            ctx.stat(f"viol.safety.{op}")
-            return
+            self.emit(sess, steps, step, "safety", "poison" if j["verdict"] == "poison" else f"event:{kind}", tr, j["spec"], {"witness": j["witness"]})
+            return True
         # (d) compiles, or is rejected only by documented backend checks
         if self.compile_every and self.n % self.compile_every == 0:
-            self.try_compile(sess, step, old, result)
+            return self.try_compile(sess, steps, step, tr)
+        return False
 
     DOCUMENTED = ("TypeError", "MemGenError", "ConfigError", "SchedulingError", "NotImplementedError")
 
-    def try_compile(self, sess, step, old, result):
+    def try_compile(self, sess, steps, step, tr):
         ctx = self.ctx
+        op, p_in, p_out, call, inner, unsafe = tr
         ctx.stat("compile.attempts")
         try:
-            result.proc.c_code_str()
+            p_out.c_code_str()
             ctx.stat("compile.ok")
+            return False
+        except CaseTimeout:
+            raise
         except Exception as e:
             name = type(e).__name__
             ctx.stat(f"compile.reject.{name}")
             if name in self.DOCUMENTED:
-                return
+                return False
             # was the *old* procedure compilable?  if it failed the same way the
             # rewrite is not to blame
             try:
-                old.c_code_str()
+                p_in.c_code_str()
             except Exception as e2:
                 if type(e2).__name__ == name:
-                    return
+                    return False
             tb = traceback.extract_tb(e.__traceback__)
             where = f"{tb[-1].filename.split('/')[-1]}:{tb[-1].name}" if tb else "?"
-            sig = {
-                "prop": "C04",
-                "monitor": "compile",
-                "kind": f"{name}@{where}",
-                "op": step["op"],
-                "features": ir_features(old._loopir_proc),
-            }
-            ctx.violation(sig, mk_case(sess, sess.steps, "compile", None, {"error": repr(e)[:500], "after": sstr(result.proc, 3000)}))
+            self.emit(sess, steps, step, "compile", f"{name}@{where}", tr, None, {"error": repr(e)[:500]})
+            return True
 
 
 # ----------------------------------------------------------------------------
-def diagnose(op, old_ir, new_ir, step, sess):
+def diagnose(op, old_ir, new_ir, call):
     """mechanism-level diagnosis attached to a signature (JSON-able, no random
-    values).  Filled in per op as triage proceeds; used by kf_matchers."""
+    values).  `call` is the hooks.CallRecord of the primitive (processed
+    arguments).  Filled in per op as triage proceeds; used by kf_matchers."""
     try:
         from . import diagnosers
 
+        d = diagnosers.generic(op, old_ir, new_ir, call) or {}
         fn = getattr(diagnosers, "d_" + op.replace(".", "_"), None)
-        if fn is None:
-            return diagnosers.generic(op, old_ir, new_ir, step, sess)
-        return fn(old_ir, new_ir, step, sess)
+        if fn is not None and call is not None:
+            d.update(fn(old_ir, new_ir, call) or {})
+        return d
     except Exception as e:
         return {"diag_error": type(e).__name__}
 
@@ -444,6 +462,10 @@ def _run_program(ctx, profile, monitors, rng, nprog):
         for m in monitors:
             m.before_step(sess, step)
         r = apply_step(sess, step)
+        if not hasattr(sess, "calls_of"):
+            sess.calls_of = [None]
+        if r.status == "accepted":
+            sess.calls_of.append(r.calls)
         ctx.stat("steps.attempted")
         ctx.stat(f"op.attempted.{step['op']}")
         if r.status == "accepted":
